@@ -171,12 +171,15 @@ def _common_clauses(w, tag, st, post, T, P, word='unchanged'):
     w.ensure(f'{tag}: P {word}', w.eq(post['P'], P))
     w.ensure(f'{tag}: same thermal condition object', w.And(s._thermal_condition is st.tc))
     w.ensure(f'{tag}: rep_ok', W.rep_ok(w, s))
-    # views obtained earlier belong to this multi-phase incarnation only
+    # views obtained earlier belong to this multi-phase incarnation only; a view obtained through an
+    # interchangeable label (exact label absent) is followed only while the phase set stays what it was
+    # when the view was taken (what it denotes afterwards depends on whether the exact label appeared)
     if post['class'] != 'MultiStream':
         st.held.clear()
     else:
         for p in list(st.held):
-            if p not in post['phases']: del st.held[p]
+            at = st.held_at[p]
+            if not (p in post['phases'] if p in at else at == post['phases']): del st.held[p]
 
 
 def _class_clause(w, tag, post, single):
@@ -185,20 +188,32 @@ def _class_clause(w, tag, post, single):
              cls=post['class'], phases=post['phases'])
 
 
+def _alias_labels(phases):
+    """Labels that are not in the phase set but denote one of its rows (other case, exact label absent)."""
+    return [a for a in PH if a not in phases and _swap(a) in phases]
+
+
 def _view_reads(w, tag, st, post, fresh=()):
-    """Parent -> view visibility: the phase views taken so far (and `ms[p]` for p in fresh) read the parent's row, T and P."""
+    """Parent -> view visibility: the phase views taken so far (and `ms[p]` for p in fresh) read the parent's row, T and P.
+    A label whose exact row is absent denotes the row with the other-case label."""
     s = st.s
     if post['class'] != 'MultiStream': return
     IDs = s.chemicals.IDs
-    for p in post['phases']:
+    for p in (*post['phases'], *_alias_labels(post['phases'])):
+        row = _dest(p, post['phases'])
         views = []
         if p in fresh: views.append(('view', s[p]))
         if p in st.held: views.append(('view obtained earlier', st.held[p]))
         for nm, v in views:
-            w.ensure(f'{tag}: {nm} of {p} reads the parent row, T and P',
-                     w.And(*[w.eq(v.imol[ID], post['flows'].get((p, cas), 0.)) for ID, cas in zip(IDs, st.CASs)],
-                           w.eq(v.T, post['T']), w.eq(v.P, post['P']), v._thermal_condition is s._thermal_condition,
-                           v.phase == p))
+            if row == p:
+                w.ensure(f'{tag}: {nm} of {p} reads the parent row, T and P',
+                         w.And(*[w.eq(v.imol[ID], post['flows'].get((p, cas), 0.)) for ID, cas in zip(IDs, st.CASs)],
+                               w.eq(v.T, post['T']), w.eq(v.P, post['P']), v._thermal_condition is s._thermal_condition,
+                               v.phase == p))
+            else:
+                w.ensure(f'{tag}: {nm} through label {p} (exact label absent) reads the parent row {row}, T and P',
+                         w.And(*[w.eq(v.imol[ID], post['flows'].get((row, cas), 0.)) for ID, cas in zip(IDs, st.CASs)],
+                               w.eq(v.T, post['T']), w.eq(v.P, post['P']), v._thermal_condition is s._thermal_condition))
 
 
 _ENGINE_EXC = (_sym.EngineUnsupported, _sym.EngineNondeterminism, _sym.PathCap, _sym.Infeasible, CheckAbort)
@@ -311,21 +326,30 @@ def _step(w, st, i, op, must_apply=False):
         _common_clauses(w, tag, st, post, pre['T'], pre['P'])
         _view_reads(w, tag, st, post)
     # ---- writes through a phase view / through the parent
-    elif kind == 'vwrite':
-        if not multi or arg not in phases: return skip()
-        v = s[arg]
-        x = w.real(f'x{i}', lo=0., lo_strict=True)
-        v.imol['Water'] = x
-        cas = st.CASs[0]
-        st.total[cas] = st.total[cas] - flows.get((arg, cas), 0.) + x
-        flows[arg, cas] = x
+    elif kind in ('vwrite', 'vread'):
+        # the label may be an interchangeable one: with the exact label absent it denotes the other-case row
+        row = _dest(arg, phases) if multi else None
+        if row is None: return skip()
+        v = _call(w, tag, lambda: s[arg])
+        if kind == 'vwrite':
+            x = w.real(f'x{i}', lo=0., lo_strict=True)
+            v.imol['Water'] = x
+            cas = st.CASs[0]
+            st.total[cas] = st.total[cas] - flows.get((row, cas), 0.) + x
+            flows[row, cas] = x
         post = _obs(s)
-        w.ensure(f'{tag}: write through the view is visible in the parent', w.eq(s.imol[arg, 'Water'], x))
+        if kind == 'vwrite':
+            w.ensure(f'{tag}: write through the view is visible in the parent', w.eq(s.imol[arg, 'Water'], x))
+            if row != arg:
+                w.ensure(f'{tag}: write through the label {arg} (exact label absent) lands in the row {row}',
+                         w.eq(s.imol[row, 'Water'], x))
         w.ensure(f'{tag}: phases and class unchanged', w.And(post['phases'] == phases, post['class'] == pre['class']))
         _rows_clauses(w, tag, st, flows, post)
         _common_clauses(w, tag, st, post, pre['T'], pre['P'])
         _view_reads(w, tag, st, post, fresh=(arg,))
-        st.held.setdefault(arg, v)
+        if arg not in st.held:
+            st.held[arg] = v
+            st.held_at[arg] = phases
     elif kind == 'pwrite':
         if arg not in phases: return skip()
         x = w.real(f'x{i}', lo=0., lo_strict=True)
@@ -358,7 +382,27 @@ def _step(w, st, i, op, must_apply=False):
         _rows_clauses(w, tag, st, flows, post)
         _common_clauses(w, tag, st, post, t, pp, word='as written')
         _view_reads(w, tag, st, post, fresh=phases if multi else ())
-        if multi: st.held.setdefault(phases[-1], v)
+        if multi and phases[-1] not in st.held:
+            st.held[phases[-1]] = v
+            st.held_at[phases[-1]] = phases
+    # ---- the phase set grows in place: the stream takes over the contents and phases of another multi-phase stream
+    elif kind == 'copy_from':
+        # Only the sentences about phase views, T and P are stated here: what the stream contains afterwards is the
+        # business of copy_like's own contract; the observed contents are taken as the new reference.
+        if not multi: return skip()
+        present = {'default': 'zero'}
+        for p in arg: present[p, 'Ethanol'] = 'pos'
+        other, _ = W.make_stream(w, f'o{i}', IDS, tuple(arg), present=present)
+        other.T = t = w.real(f't{i}', lo=0., lo_strict=True)
+        other.P = pp = w.real(f'p{i}', lo=0., lo_strict=True)
+        _call(w, tag, lambda: s.copy_like(other))
+        st.T, st.P = t, pp
+        post = _obs(s)
+        st.total = W.total_by_CAS(s)
+        w.ensure(f'{tag}: still multi-phase, with a row for every phase of the other stream (up to case)',
+                 w.And(post['class'] == 'MultiStream', _covers(post['phases'], tuple(arg))), phases=post['phases'])
+        _common_clauses(w, tag, st, post, t, pp, word='as copied')
+        _view_reads(w, tag, st, post, fresh=(*post['phases'], *_alias_labels(post['phases'])))
     # ---- save / restore
     elif kind == 'save':
         st.saved = {'data': s.get_data(), 'obs': pre, 'total': dict(st.total)}
@@ -402,6 +446,7 @@ def _run(w, cfg, canary):
     st.T, st.P = s.T, s.P
     st.total = W.leaves_total_by_CAS(s, leaves)
     st.held = {}
+    st.held_at = {}
     st.saved = None
     st.applied = 0
     first = dict(st.total)
@@ -643,4 +688,65 @@ def seq_configs(tier):
                   'thermosteam.indexer:MaterialIndexer.to_material_indexer',
                   'thermosteam.indexer:MaterialIndexer.to_chemical_indexer', 'thermosteam.indexer:MaterialIndexer.get_phase'])
 def sequences(w, cfg):
+    _run(w, cfg, 'total')
+
+
+# --------------------------------------------------------------------------- C12/alias_views
+
+def _alias_src_sets(tier):
+    """Phase subsets in which some label is absent while its other-case label is present."""
+    if tier == 'thorough':
+        return [ph for ph in _subsets(1) if _alias_labels(ph)]
+    return ['lg', 'sg', 'sl', 'gL', 'gS', 'slg', 'sL', 'lS', 'lgS', 'SL', 'slL', 'slgS']
+
+
+def _alias_phase_changes(ph, a):
+    out = _phase_changes(ph)
+    out += [('set', ''.join(sorted(set(ph) | {a}))),                       # the exact label appears
+            ('set', ''.join(sorted((set(ph) - {_swap(a)}) | {a}))),        # the material moves to the other-case row
+            ('save_restore',)]
+    return out
+
+
+def alias_view_configs(tier):
+    """A phase view is taken through an interchangeable label (exact label absent), the phase set changes (or not),
+    and the label is used again, from both sides."""
+    out = []
+    for ph in _alias_src_sets(tier):
+        for a in _alias_labels(ph):
+            r = _swap(a)
+            others = [p for p in ph if p != r]
+            srcs = [_src('M', ph, ph, r),                                   # every row non-empty
+                    _src('M', ph, r, others[-1] if others else r),          # only the denoted row, one other maybe
+                    _src('M', ph, '', r)]                                   # empty or the denoted row only
+            if tier == 'thorough':
+                srcs.append(_src('M', ph, others, r))
+            for src in srcs:
+                # no phase change: the view stays live both ways and shares T, P
+                out.append(_cfg(src, [('vwrite', a), ('pwrite', r), ('TP',), ('vread', a)]))
+                out.append(_cfg(src, [('TP',), ('pwrite', r), ('vread', a), ('vwrite', r), ('vwrite', a)]))
+                for ch in _alias_phase_changes(ph, a):
+                    chs = [('save',), ('add', 'g' if 'g' not in ph else ('s' if 's' not in ph and 'S' != a else 'L')),
+                           ('restore',)] if ch == ('save_restore',) else [ch]
+                    out.append(_cfg(src, [('vwrite', a), *chs, ('vwrite', a), ('pwrite', r), ('TP',)]))
+                    out.append(_cfg(src, [('vread', a), *chs, ('vread', a)]))
+                    if tier == 'thorough' or src['pos'] == r:
+                        out.append(_cfg(src, [('vread', a), *chs, ('pwrite', r), ('vwrite', a), ('vread', r)]))
+                        out.append(_cfg(src, [('vread', a), *chs, *chs, ('vwrite', a)]))
+    seen = set(); res = []
+    for c in out:
+        if c['name'] not in seen:
+            seen.add(c['name']); res.append(c)
+    return res
+
+
+@group('C12/alias_views', configs=alias_view_configs,
+       functions=['thermosteam._multi_stream:MultiStream.__getitem__', 'thermosteam.indexer:MaterialIndexer.get_phase',
+                  'thermosteam._phase:PhaseIndexer', 'thermosteam._multi_stream:MultiStream.phases',
+                  'thermosteam._multi_stream:MultiStream.reset_cache', 'thermosteam._multi_stream:MultiStream.reduce_phases',
+                  'thermosteam._multi_stream:MultiStream.vle', 'thermosteam._multi_stream:MultiStream.lle',
+                  'thermosteam._multi_stream:MultiStream.sle', 'thermosteam._stream:Stream.set_data',
+                  'thermosteam.indexer:ChemicalIndexer.__setitem__', 'thermosteam.indexer:MaterialIndexer.__setitem__',
+                  'thermosteam.indexer:MaterialIndexer.to_material_indexer', 'thermosteam._phase:LockedPhase'])
+def alias_views(w, cfg):
     _run(w, cfg, 'total')
